@@ -383,27 +383,28 @@ type vfRouteExec struct {
 	hmu    sync.Mutex
 	// cbmu serialises the environment's callbacks (they run on goroutines of the code under test, which run freely
 	// once the scheduler is detached); lmu protects the event log and the violation list
-	cbmu, lmu    sync.Mutex
-	regOps       []vfRegOp
-	handoff      []chan RoutedMessage
-	handoffEnded map[chan RoutedMessage]bool
-	stranded     map[string]bool
-	inbound      adminservice.AdminServiceServer
-	outbound     adminservice.AdminServiceServer
-	stop         context.CancelFunc
-	now          int
-	src          []*vfSrc
-	tgt          []*vfTgt
-	returned     []vfTaskRec
-	deliv        map[string][]vfDelivery
-	viol         []vfViolation
-	events       []string // human-readable observation log
-	faults       int
-	panics       []string
-	closing      bool
-	entered      map[string][][2]int // task tag -> (target, stream incarnation) whose Send the proxy has called with it
-	wmSent       map[[2]int64]bool   // (source shard, high watermark) of every watermark-only batch a source has sent
-	peersUp      bool                // LatePeers scenarios: the intra-proxy streams may be established
+	cbmu, lmu     sync.Mutex
+	regOps        []vfRegOp
+	handoff       []chan RoutedMessage
+	handoffEnded  map[chan RoutedMessage]bool
+	stranded      map[string]bool
+	inbound       adminservice.AdminServiceServer
+	outbound      adminservice.AdminServiceServer
+	stop          context.CancelFunc
+	now           int
+	src           []*vfSrc
+	tgt           []*vfTgt
+	returned      []vfTaskRec
+	deliv         map[string][]vfDelivery
+	viol          []vfViolation
+	events        []string // human-readable observation log
+	faults        int
+	panics        []string
+	closing       bool
+	failIntraSend bool                // fault: the next task batch sent on an intra-proxy stream fails (and the stream with it)
+	entered       map[string][][2]int // task tag -> (target, stream incarnation) whose Send the proxy has called with it
+	wmSent        map[[2]int64]bool   // (source shard, high watermark) of every watermark-only batch a source has sent
+	peersUp       bool                // LatePeers scenarios: the intra-proxy streams may be established
 	// spawn starts a handler goroutine (plain go at the macro level, a managed goroutine at the micro level)
 	spawn func(name string, f func())
 	// changed is closed (and replaced) on every environment-visible event, for goroutines waiting on a condition
@@ -567,6 +568,20 @@ func (c *vfIntraClient) StreamWorkflowReplicationMessages(ctx context.Context, _
 		return nil
 	}
 	ss.onSend = func(m *adminservice.StreamWorkflowReplicationMessagesResponse) error {
+		c.e.hmu.Lock()
+		fail := c.e.failIntraSend && len(m.GetMessages().GetReplicationTasks()) > 0
+		if fail {
+			c.e.failIntraSend = false
+		}
+		c.e.hmu.Unlock()
+		if fail {
+			// the connection between the two instances fails while this message is being written: the Send reports an
+			// error, both ends of the stream are gone
+			c.e.logf("intra-proxy stream towards %s fails while a task batch is being sent", c.to.name)
+			ss.breakNow()
+			cs.breakNow()
+			return errVfBroken
+		}
 		cs.deliver(vfItem{resp: proto.Clone(m).(*adminservice.StreamWorkflowReplicationMessagesResponse)})
 		return nil
 	}
